@@ -44,9 +44,12 @@ class Diag:
         info = self.info or {}
         if self.kind in ("arith", "div0"):
             return info.get("arith") or info.get("props") or []
-        if ci.get("props"):
+        # an explicitly tagged clause (`// #C09 label`) names the property it states.  A clause that only carries the
+        # default tags of the proof-library file it lives in (a lemma's `requires`) says nothing about WHICH property the
+        # failing site belongs to: that is the function the obligation arose in.
+        if ci.get("props") and (ci.get("label") or not info.get("props")):
             return ci["props"]
-        return info.get("props") or []
+        return info.get("props") or ci.get("props") or []
 
     def oid(self):
         info = self.info or {}
